@@ -6,7 +6,8 @@ From PyGql Require Import Lang.Parser Spec.LexSpec Spec.GrammarSpec Spec.LocSpec
   Proofs.BlockStringProofs Proofs.LexProofs Proofs.VerbatimProofs Proofs.ParserTop
   Proofs.GrammarProofs Proofs.EntryProofs Spec.DocGrammarSpec Proofs.DocEntryProofs
   Spec.SdlGrammarSpec Proofs.SdlEntryProofs Spec.ReparseSpec Proofs.ReparseProofs
-  Proofs.SpanOrderProofs Proofs.SpansFull Proofs.ReparseDefProofs.
+  Proofs.SpanOrderProofs Proofs.SpansFull Proofs.ReparseDefProofs
+  Spec.ReparseSdlSpec Proofs.ReparseSdlProofs.
 
 (* ---- literal decoding ---- *)
 
@@ -137,6 +138,30 @@ Theorem C02_reparse_exec_definition : forall fl s ts pre seg post d,
             = Ok (Doc [shift_exec_def (seg_start seg) d] l).
 Proof. exact reparse_exec_definition. Qed.
 Print Assumptions C02_reparse_exec_definition.
+
+(* The same for definition nodes of EVERY class (operations, fragments, and all
+   type-system definitions and extensions): a segment of the token list
+   deriving Definition parses back to exactly that one definition, spans moved
+   to offset 0 (shift_def, Spec/ReparseSdlSpec.v). *)
+Theorem C02_reparse_definition : forall fl s ts pre seg post d,
+  lex s = Ok ts -> ts = pre ++ seg ++ post ->
+  D_definition (no_location fl) (fragment_variables fl) (allow_type_system fl) seg d ->
+  exists l, parse_document fl (substring s (seg_start seg) (seg_end seg))
+            = Ok (Doc [shift_def (seg_start seg) d] l).
+Proof. exact reparse_definition. Qed.
+Print Assumptions C02_reparse_definition.
+
+(* ... and stated on the returned tree alone: with locations enabled every
+   definition node d of an accepted document has a loc (a, b), and the text
+   s[a:b] parses under the same flags to the document whose only definition is
+   d with every span moved by a. *)
+Theorem C02_reparse_span_definitions : forall fl s doc,
+  parse_document fl s = Ok doc -> no_location fl = false ->
+  forall d, In d (doc_defs doc) ->
+  exists a b l, def_loc d = Some (a, b)
+    /\ parse_document fl (substring s a b) = Ok (Doc [shift_def a d] l).
+Proof. exact reparse_document_definitions_loc. Qed.
+Print Assumptions C02_reparse_span_definitions.
 
 (* With positions disabled no node of the tree has a loc (documents, values,
    types; every flag combination otherwise). *)
